@@ -397,13 +397,18 @@ class Interp(container.ContainerInterp):
                                          lambda w, sname=sname, other=other: setattr(w, container.SETTERS[sname], specs.build(container_min(other))))
             # 11. a write session in which every call was refused: closing it leaves the file as it was when the session began
             self.session_of_refusals(seed)
-        if self.hole is None:
+        if self.hole is None and os.path.getsize(self.path) <= 256 * 1024:
+            # (both work on scratch copies of the current file, dozens per batch: only for files of moderate size - the 2 MB capture is left out)
             # 12. a block that cannot be encoded BECAUSE OF A PROCESS-WIDE SETTING: a finite float64 sample beyond the float32 range while numpy's
             #     overflow handling is 'raise' (np.errstate(over="raise"), or warnings turned into errors): refused - cleanly
             self.strict_numeric_refusals(seed)
             # 13. the very object of an ACCEPTED call, spoilt in place afterwards (label too long / not cp1252 / format unsupported - none of which
             #     changes its size) and offered again through the replace path: refused - cleanly (the block stored earlier stays)
             self.spoilt_after_accept(seed)
+        elif os.path.getsize(self.path) > 256 * 1024:
+            import gc
+
+            gc.collect()    # hundreds of refused calls each kept two images of a multi-megabyte file alive through their tracebacks
 
     def _scratch(self, name):
         import shutil
@@ -455,6 +460,7 @@ class Interp(container.ContainerInterp):
                                         t2.add_block(blk)
                                 except Exception as e:  # noqa
                                     raised = e
+                                    e.__traceback__ = None      # (no cycle through this frame: the file images below are released at once)
                     finally:
                         try:
                             t2.__exit__(None, None, None)
@@ -525,6 +531,7 @@ class Interp(container.ContainerInterp):
                                     t2.replace_block(blk)
                             except Exception as e:  # noqa
                                 raised = e
+                                e.__traceback__ = None
                             t2.handler.flush()
                     finally:
                         try:
